@@ -69,6 +69,8 @@ type ProcSpec struct {
 	StdinFailAt  int               `json:"stdin_fail_at,omitempty"` // >0: error after this many bytes
 	StdinEOFAt   int               `json:"stdin_eof_at,omitempty"`  // >0: EOF after this many bytes
 	OutFile      string            `json:"out_file,omitempty"`
+	StdoutFailAt  int              `json:"stdout_fail_at,omitempty"`  // n-th write to standard output fails (ENOSPC)
+	StdoutFailAll bool             `json:"stdout_fail_all,omitempty"` // and all later ones
 	Format       string            `json:"format,omitempty"` // export format flag
 	Flags        map[string]string `json:"flags,omitempty"`  // extra SET @@FLAG values applied through Tx.SetFlag
 	Quiet        bool              `json:"quiet"`
